@@ -10,6 +10,16 @@ macro_rules! arith_list {
             "op_mul" => a * b,
             "op_div" => a / b,
             "op_rem" => a % b,
+            "op_add_rr" => &a + &b,
+            "op_sub_rr" => &a - &b,
+            "op_mul_rr" => &a * &b,
+            "op_div_rr" => &a / &b,
+            "op_rem_rr" => &a % &b,
+            "op_add_assign" => { let mut x = a; x += b; x },
+            "op_sub_assign" => { let mut x = a; x -= &b; x },
+            "op_mul_assign" => { let mut x = a; x *= b; x },
+            "op_div_assign" => { let mut x = a; x /= &b; x },
+            "op_rem_assign" => { let mut x = a; x %= b; x },
             "div_euclid" => a.div_euclid(b),
             "rem_euclid" => a.rem_euclid(b),
             "strict_add" => a.strict_add(b),
@@ -139,6 +149,7 @@ macro_rules! sig_list {
     ($f:ident, $T:ty, $U:ty) => {
         group_fn! { $f; args; { let a: $T = args.v(0); let b: $T = args.v(1); let bu: $U = args.v(1); };
             "op_neg" => -a,
+            "op_neg_r" => -&a,
             "abs" => a.abs(),
             "strict_abs" => a.strict_abs(),
             "checked_abs" => a.checked_abs(),
